@@ -11,7 +11,7 @@ coq/theories/Gen/SgmlGen.v on every run:
 Fail closed: anything not understood raises.  A pattern that is neither of the two known texts does not fail by itself
 (a harmless rewrite is possible): the repaired variant is assumed, `pattern_known := false` is emitted and the
 correspondence runs switch to their deep setting."""
-import os, re, importlib
+import os, re, importlib, inspect, ast, textwrap, hashlib
 from . import common as C
 
 LEGACY_PATTERN = r"""<(?P<tag>[A-Z0-9./_ ]+?)>
@@ -47,6 +47,52 @@ def _squeeze(p):
     return "".join(out)
 
 
+# normalised-AST hashes (docstrings and comments dropped) of every function Model/Sgml.v and Model/Serialize.v transcribe by hand, for the REPAIRED
+# source (fixes e7395eb, 8ba58b0, 29e64bd).  A changed hash makes `source_is_pinned = false` in Gen/SgmlGen.v, which breaks the obligation
+# Props/*/source_is_repaired_variant.v: the model is then no longer tied to the source (reported as such even when the rewrite is harmless; the
+# property predicate and the correspondence still look for a failing input).
+SOURCE_PINS = {
+    "TreeBuilder.__init__": "2130022b4014", "TreeBuilder.start": "a131ccbf3e6c", "TreeBuilder.end": "d7ed0c7e9cfe", "TreeBuilder.close": "250dd3a4a29d",
+    "TreeBuilder.feed": "95973ba24b66", "TreeBuilder._feedmatch": "de67ed002250", "TreeBuilder._start": "3c7792462434", "TreeBuilder._groomstring": "31f6d519915d",
+    "OFXTree.parse": "15cea70b865b", "utils.indent": "f30c62958842", "utils.tostring_unclosed_elements": "fb88dc53b9fa",
+}
+
+
+def ast_hash(f):
+    f = getattr(f, "__func__", f)
+    t = ast.parse(textwrap.dedent(inspect.getsource(f)))
+    for n in ast.walk(t):
+        if isinstance(n, ast.FunctionDef) and n.body and isinstance(n.body[0], ast.Expr) \
+                and isinstance(getattr(n.body[0], "value", None), ast.Constant) and isinstance(n.body[0].value.value, str):
+            n.body = n.body[1:] or [ast.Pass()]
+    return hashlib.sha1(ast.dump(t).encode()).hexdigest()[:12]
+
+
+def source_pins(P, U):
+    """-> (hashes, problems)"""
+    items = {}
+    for n in ("__init__", "start", "end", "close", "feed", "_feedmatch", "_start", "_groomstring"):
+        items["TreeBuilder." + n] = P.TreeBuilder.__dict__.get(n)
+    items["OFXTree.parse"] = P.OFXTree.__dict__.get("parse")
+    items["utils.indent"] = getattr(U, "indent", None)
+    items["utils.tostring_unclosed_elements"] = getattr(U, "tostring_unclosed_elements", None)
+    hashes, problems = {}, []
+    for k, f in items.items():
+        try:
+            hashes[k] = ast_hash(f)
+        except Exception as e:
+            hashes[k] = None
+            problems.append("%s: cannot hash (%r)" % (k, e))
+            continue
+        if hashes[k] != SOURCE_PINS.get(k):
+            problems.append("%s changed (hash %s, pinned %s)" % (k, hashes[k], SOURCE_PINS.get(k)))
+    known = {"__init__", "start", "end", "close", "feed", "_feedmatch", "_start", "_groomstring", "regex", "data"}
+    for n, v in P.TreeBuilder.__dict__.items():
+        if (callable(v) or isinstance(v, (property, classmethod, staticmethod))) and n not in known:
+            problems.append("TreeBuilder.%s: method not modelled" % n)
+    return hashes, problems
+
+
 def repo_variant():
     """-> dict(cdata_lazy, checked, pattern, flags, known)"""
     C.use_repo()
@@ -73,7 +119,11 @@ def repo_variant():
     checked = bool(over)
     if "data" in d:
         raise ValueError("ofxtools.Parser.TreeBuilder overrides data(): not modelled")
-    return {"cdata_lazy": lazy, "checked": checked, "pattern": pat, "flags": int(flags), "known": known}
+    import ofxtools.utils as U
+    importlib.reload(U)
+    hashes, problems = source_pins(P, U)
+    return {"cdata_lazy": lazy, "checked": checked, "pattern": pat, "flags": int(flags), "known": known,
+            "source_hashes": hashes, "source_problems": problems}
 
 
 def gen_sgml():
@@ -96,6 +146,10 @@ def gen_sgml():
     body += "Definition regex_pattern : text := " + C.ctext(v["pattern"]) + ".\n"
     body += "Definition regex_flags : N := %d.\n" % v["flags"]
     body += "Definition pattern_known : bool := %s.\n" % C.cbool(v["known"])
+    body += "(* the hand-transcribed functions of Parser.py / utils.py are the ones the models were written against (normalised-AST hashes):\n"
+    body += "".join("   %s %s\n" % (k, h) for k, h in sorted(v["source_hashes"].items()))
+    body += "".join("   PROBLEM: %s\n" % q.replace("*)", "* )") for q in v["source_problems"]) + "*)\n"
+    body += "Definition source_is_pinned : bool := %s.\n" % C.cbool(not v["source_problems"])
     body += "Definition repo_cfg : cfg := {| cdata_lazy := %s; checked := %s |}.\n" % (C.cbool(v["cdata_lazy"]), C.cbool(v["checked"]))
     body += "Definition html_empty : list text :=\n [ " + "\n ; ".join(C.ctext(t) for t in he) + " ].\n"
     C.write_if_changed(os.path.join(C.THEORIES, "Gen", "SgmlGen.v"), body)
